@@ -83,6 +83,20 @@ theorem writes_after_run_partial (kind : Kind) (tr : List Ev) (st : St) (h : acc
     · cases h
   · cases h
 
+/-- The generative executor model, configured the way the extracted call-site table justifies
+    (`cfg_from_source`), only produces traces the protocol accepts, without a temporary commit — for every
+    kind of execution and every program behaviour (any run-phase activity, success or failure, any deltas).
+    Together with the `_partial` theorems: the modelled executors satisfy the three clauses. -/
+theorem exec_accepted (kind : Kind) (b : Behaviour) :
+    accept kind (exec (Verif.Spec.CommitSites.cfgOf Verif.Gen.CommitSites.sites) kind b) = .ok ⟨.done, false⟩ := by
+  rw [cfg_from_source]
+  exact exec_accepted_aux kind b
+
+/-- Why the fact matters: an executor that commits although the run failed (the planned mutation)
+    produces a trace the protocol rejects. -/
+theorem commit_on_failure_rejected :
+    accept .tx (exec ⟨false, true⟩ .tx ⟨1, true, [.step], false, [], [1], [(1, 1)]⟩) = .error .errAfterWrite := by decide
+
 /-! Witnesses: the acceptor of the code *as it exists* accepts executions that violate the property
 (taken from real runs of `a.storage.used` after `a.storage.save(...)`). -/
 
